@@ -233,7 +233,7 @@ class Ctx:
             from_clause=table, columns_available={A.tag(c): table.columns[c] for c in s.cols}
         )
         self.leaf_payloads[s.name] = payload
-        return eng.make_leaf(cols, payload, name=s.name, min_rows=lo, max_rows=hi)
+        return eng.make_leaf(cols, payload, name=s.leaf_name or s.name, min_rows=lo, max_rows=hi)
 
     # -- program application
     def operand(self, rel, operand):
